@@ -1,4 +1,4 @@
-import Anytree.Lemmas.Forest
+import Anytree.Lemmas.Chain
 /-!
 # C01 — parent and children links always describe one consistent forest
 
@@ -45,27 +45,8 @@ theorem inv_attachRaw {s : Forest} (h : Inv s) {n p : Nat} (hroot : s.parent n =
 
 /-! ## the loop check really excludes loops -/
 
-theorem onChain_false {s : Forest} {n : Nat} :
-    ∀ fuel p, onChain s n fuel p = some false → ∀ j, s.up j p ≠ some n := by
-  intro fuel
-  induction fuel with
-  | zero => intro p h; simp [onChain] at h
-  | succ fuel ih =>
-    intro p h j
-    simp only [onChain] at h
-    by_cases hpn : p = n
-    · simp [hpn] at h
-    · simp only [hpn, if_false] at h
-      cases hp : s.parent p with
-      | none =>
-        cases j with
-        | zero => simp [up]; exact hpn
-        | succ j => simp [up, hp]
-      | some q =>
-        simp only [hp] at h
-        cases j with
-        | zero => simp [up]; exact hpn
-        | succ j => simp only [up, hp]; exact ih q h j
+theorem onChain_false {s : Forest} {n : Nat} (fuel p : Nat) (h : onChain s n fuel p = some false) :
+    ∀ j, s.up j p ≠ some n := Anytree.onChain_false fuel p h
 
 /-! ## Hoare triples of the mirror's building blocks -/
 
@@ -133,11 +114,6 @@ theorem checkLoop_triple (fuel n p : Nat) (G : Forest → Prop)
       cases b with
       | true => exact hE _ _ hw
       | false => exact ⟨hw, onChain_false fuel p h⟩
-
-/-- a node argument that exists -/
-def ArgOk (k : Nat) : Option Arg → Prop
-  | some (.node p) => p < k
-  | _ => True
 
 /-- the `parent` setter preserves the invariant, whatever happens -/
 theorem setParent_triple (k : Nat) (c : Cfg) (fuel n : Nat) (v : Option Arg) (hn : n < k)
@@ -219,6 +195,11 @@ def ArgsOk (k : Nat) : Option (List Arg) → Prop
   | none => True
   | some xs => ∀ x ∈ xs, ArgOk k (some x)
 
+instance (k : Nat) (xs : Option (List Arg)) : Decidable (ArgsOk k xs) := by
+  cases xs with
+  | none => exact isTrue trivial
+  | some xs => exact inferInstanceAs (Decidable (∀ x ∈ xs, ArgOk k (some x)))
+
 theorem argsToNodes_lt {k : Nat} : ∀ (xs : List Arg), (∀ x ∈ xs, ArgOk k (some x)) →
     ∀ y ∈ argsToNodes xs, y < k := by
   intro xs
@@ -252,12 +233,21 @@ def KidsOk (k : Nat) : CtorKids → Prop
   | .list xs => ∀ x ∈ xs, ArgOk k (some x)
   | _ => True
 
+instance (k : Nat) (cs : CtorKids) : Decidable (KidsOk k cs) := by
+  cases cs with
+  | list xs => exact inferInstanceAs (Decidable (∀ x ∈ xs, ArgOk k (some x)))
+  | none => exact isTrue trivial
+  | nonIterable => exact isTrue trivial
+
 /-- an op only names objects that exist -/
 def WellFormed (s : Forest) : Op → Prop
   | .setParent n v => n < s.n ∧ ArgOk s.n v
   | .setChildren n xs => n < s.n ∧ ArgsOk s.n xs
   | .delChildren n => n < s.n
   | .ctor p cs => ArgOk s.n p ∧ KidsOk s.n cs
+
+instance (s : Forest) (op : Op) : Decidable (WellFormed s op) := by
+  cases op <;> (unfold WellFormed; exact inferInstance)
 
 theorem inv_setParent (c : Cfg) (fuel : Nat) (s : Forest) (n : Nat) (v : Option Arg) (h : Inv s)
     (hwf : WellFormed s (.setParent n v)) : Inv (exec c fuel (.setParent n v) s).f := by
@@ -287,7 +277,7 @@ theorem inv_setChildren (c : Cfg) (fuel : Nat) (s : Forest) (n : Nat) (xs : Opti
     | ok u => cases u; exact this.1
     | error e => exact this.1
 
-theorem ArgOk.mono {k : Nat} {v : Option Arg} (h : ArgOk k v) : ArgOk (k+1) v := by
+theorem argOk_mono {k : Nat} {v : Option Arg} (h : ArgOk k v) : ArgOk (k+1) v := by
   match v, h with
   | some (.node p), h => exact Nat.lt_succ_of_lt h
   | some .nonNode, _ => trivial
@@ -301,7 +291,7 @@ theorem ctor_triple (k : Nat) (c : Cfg) (fuel : Nat) (p : Option Arg) (cs : Ctor
   have hk : w.f.n = k := hw.2
   have hnew : Triple (onF (Gd k)) (M.modify Forest.newNode) (onF (Gd (k+1))) (EG (k+1)) :=
     Triple.modify (fun f hf => ⟨inv_newNode hf.1, by simp [newNode, hf.2]⟩)
-  have hsp := setParent_triple (k+1) c fuel w.f.n p (by omega) hp.mono
+  have hsp := setParent_triple (k+1) c fuel w.f.n p (by omega) (argOk_mono hp)
   have hkids : Triple (onF (Gd (k+1)))
       (match (generalizing := false) cs with
         | .none => M.ok
@@ -315,7 +305,7 @@ theorem ctor_triple (k : Nat) (c : Cfg) (fuel : Nat) (p : Option Arg) (cs : Ctor
       cases xs with
       | nil => exact Triple.ok
       | cons x xs =>
-        exact setChildren_triple (k+1) c fuel _ _ (by omega) (fun y hy => (hcs y hy).mono)
+        exact setChildren_triple (k+1) c fuel _ _ (by omega) (fun y hy => argOk_mono (hcs y hy))
   exact (Triple.seq (Triple.seq hnew hsp) hkids).run hw
 
 theorem inv_ctor (c : Cfg) (fuel : Nat) (s : Forest) (p : Option Arg) (cs : CtorKids) (h : Inv s)
@@ -347,6 +337,15 @@ def runHistory (fuel : Nat) : List (Cfg × Op) → Forest → Forest
 def WellFormedHistory (fuel : Nat) : List (Cfg × Op) → Forest → Prop
   | [], _ => True
   | (c, op) :: rest, s => WellFormed s op ∧ WellFormedHistory fuel rest (exec c fuel op s).f
+
+def decWFH (fuel : Nat) : (hist : List (Cfg × Op)) → (s : Forest) → Decidable (WellFormedHistory fuel hist s)
+  | [], _ => isTrue trivial
+  | (c, op) :: rest, s =>
+    have := decWFH fuel rest (exec c fuel op s).f
+    inferInstanceAs (Decidable (WellFormed s op ∧ WellFormedHistory fuel rest (exec c fuel op s).f))
+
+instance (fuel : Nat) (hist : List (Cfg × Op)) (s : Forest) : Decidable (WellFormedHistory fuel hist s) :=
+  decWFH fuel hist s
 
 /-- **C01**: after any finite history from the empty forest the links are consistent -/
 theorem inv_history (fuel : Nat) (hist : List (Cfg × Op)) :
@@ -381,35 +380,8 @@ theorem not_in_other_children {s : Forest} (h : Inv s) {n p q : Nat} (hp : s.par
   exact hq (Option.some.inj this).symm
 
 /-- no node is its own ancestor -/
-theorem no_self_ancestor {s : Forest} (h : Inv s) (x : Nat) : ∀ k, 0 < k → s.up k x ≠ some x := by
-  intro k hk hx
-  obtain ⟨m, hm⟩ := h.term x
-  -- going round the cycle `m` times contradicts termination
-  have hcyc : ∀ j, s.up (j * k) x = some x := by
-    intro j
-    induction j with
-    | zero => simp [up]
-    | succ j ih =>
-      have : ∀ a b y z, s.up a y = some z → s.up (a + b) y = s.up b z := by
-        intro a
-        induction a with
-        | zero => intro b y z hz; simp [up] at hz; subst hz; simp
-        | succ a iha =>
-          intro b y z hz
-          simp only [up] at hz
-          cases hp : s.parent y with
-          | none => simp [hp] at hz
-          | some q =>
-            simp only [hp] at hz
-            have := iha b q z hz
-            rw [show a + 1 + b = (a + b) + 1 by omega]
-            simp only [up, hp]; exact this
-      rw [show (j + 1) * k = j * k + k by rw [Nat.succ_mul]]
-      rw [this _ _ _ _ ih]; exact hx
-  have h1 : m ≤ m * k := Nat.le_mul_of_pos_right m hk
-  have := up_add_none hm (m * k - m)
-  rw [show m + (m * k - m) = m * k by omega, hcyc m] at this
-  simp at this
+theorem no_self_ancestor {s : Forest} (h : Inv s) (x : Nat) : ∀ k, 0 < k → s.up k x ≠ some x :=
+  h.no_self_ancestor x
 
 /-- a detached node is the root of its own tree -/
 theorem detached_is_root {s : Forest} (h : Inv s) {n : Nat} (hp : s.parent n = none) :
